@@ -78,7 +78,8 @@ def gen(rng, tier):
     # one dependency changed or deleted at a time, for each kind of dependency and each way of depending on it
     base = ("+s1/0&+s2/0&+e1.0/s1/a&+e1.1/s1/b&+e2.0/s2/a&+k1/htpasswd/0&+k2/jwk/0&+k3/apikey/0&+k4/ca/0&+k5/tls/0&+p1/basic/k1/0&+p2/jwt/k2/0&"
             "+p3/apikey/k3/0&+p4/rl/_/0&+p5/emtls/k4/0&+p6/imtls/k4/0&+v1/s1/0/pol=p6/tls=k5&+v2/s1/0/rpol=%s&+i1/s2/0/basic=k1&+i2/s1/0%s&+t1/s2/0")
-    changes = ["+e1.0/s1/a+c", "-e1.0", "-e1.1", "+e2.0/s2/_", "-e2.0", "+s1/1", "-s1", "-s2", "+k1/htpasswd/1", "-k1", "+k2/jwk/1", "-k2", "+k3/apikey/1", "-k3",
+    changes = ["+s1/0/tp=9090&+e1.0/s1/a/port=9090", "+e1.0/s1/a/port=9090",      # only the slice's port changes (a targetPort edit): same endpoints
+               "+e1.0/s1/a+c", "-e1.0", "-e1.1", "+e2.0/s2/_", "-e2.0", "+s1/1", "-s1", "-s2", "+k1/htpasswd/1", "-k1", "+k2/jwk/1", "-k2", "+k3/apikey/1", "-k3",
                "+k4/ca/1", "-k4", "+k5/tls/1", "-k5", "+p1/basic/k1/1", "-p1", "+p2/jwt/k2/1", "-p2", "+p3/apikey/k3/1", "-p3", "+p4/rl/_/1", "-p4",
                "+p5/emtls/k4/1", "-p5", "+p6/imtls/k4/1", "-p6", "+k1/bad/1",
                # the Policy goes to another controller's class (the generation then drops it) and comes back
